@@ -48,7 +48,7 @@ pub fn c01(ctx: &Ctx) -> i32 {
             Tier::Quick => vec![exh(4, &ADV01, false, false), exh(5, &ADV1, false, false), exh_new(3, &ADV01, false, false, 0), exh_new(4, &ADV1, false, false, 0)],
             Tier::Thorough => vec![exh(5, &ADV01, false, false), exh(6, &ADV1, false, false), { let mut e = exh(5, &ADV1, false, false); e.tick = 5; e.prices = [500, 505, 510]; e }, exh_new(4, &ADV01, false, false, 0), exh_new(5, &ADV1, false, false, 0)],
         },
-        rnd: vec![(rnd, ctx.tier.pick(20_000, 300_000)), (rnd_deep, ctx.tier.pick(2000, 40_000))],
+        rnd: vec![(rnd, ctx.tier.pick(60_000, 800_000)), (rnd_deep, ctx.tier.pick(6000, 100_000))],
         nontrivial: |c| c.trades > 0 && c.tie_insertions == 0,
         nontrivial_rule: "the history is clock-disciplined (no tie insertion) and produced at least one trade",
     };
@@ -128,7 +128,7 @@ pub fn c02(ctx: &Ctx) -> i32 {
             Tier::Quick => vec![exh(4, &ADV1, true, true), exh(5, &ADV1, false, true), exh_new(3, &ADV1, true, true, 0)],
             Tier::Thorough => vec![exh(5, &ADV1, true, true), exh(6, &ADV1, false, true), exh_new(4, &ADV1, true, true, 0)],
         },
-        rnd: vec![(full, ctx.tier.pick(20_000, 300_000)), (narrow, ctx.tier.pick(4000, 60_000))],
+        rnd: vec![(full, ctx.tier.pick(40_000, 600_000)), (narrow, ctx.tier.pick(8000, 120_000))],
         nontrivial: |c| c.max_resting > 0 && c.states_checked > 0,
         nontrivial_rule: "at least one state of the history had a non-empty side (distinct counts histories; the number of states checked is in census.states_checked)",
     };
@@ -213,7 +213,7 @@ pub fn c03(ctx: &Ctx) -> i32 {
             Tier::Quick => vec![exh(4, &ADV1, true, true), exh(4, &ADV01, false, false), exh_new(3, &ADV1, true, false, 0)],
             Tier::Thorough => vec![exh(5, &ADV1, true, true), exh(5, &ADV01, false, false), exh_new(4, &ADV1, true, false, 0)],
         },
-        rnd: vec![(full, ctx.tier.pick(20_000, 300_000))],
+        rnd: vec![(full, ctx.tier.pick(60_000, 900_000))],
         nontrivial: |c| c.trades > 0,
         nontrivial_rule: "at least one trade was logged",
     };
@@ -255,7 +255,7 @@ pub fn c04(ctx: &Ctx) -> i32 {
             Tier::Quick => vec![e3, e4, exh_new(3, &ADV01, true, true, 0), exh_new(4, &ADV1, false, true, 0)],
             Tier::Thorough => vec![e4m, e5, exh_new(4, &ADV01, true, true, 0), exh_new(5, &ADV1, false, true, 0)],
         },
-        rnd: vec![(p, ctx.tier.pick(15_000, 250_000))],
+        rnd: vec![(p, ctx.tier.pick(40_000, 800_000))],
         nontrivial: |c| c.redundant_requests > 0 && (c.cancels_effective > 0 || c.trades > 0 || c.market_rejected > 0),
         nontrivial_rule: "at least one redundant request and at least one terminal transition",
     };
@@ -286,7 +286,7 @@ pub fn c05_book_spec(tier: Tier) -> BookSpec {
             Tier::Quick => vec![exh(4, &ADV01, false, false), exh(3, &ADV01, true, false), exh_new(3, &ADV01, true, false, 0)],
             Tier::Thorough => vec![exh(5, &ADV01, false, false), exh(4, &ADV01, true, true), exh_new(4, &ADV01, true, false, 0)],
         },
-        rnd: vec![(p, tier.pick(10_000, 200_000))],
+        rnd: vec![(p, tier.pick(30_000, 500_000))],
         nontrivial: |c| c.tie_insertions > 0,
         nontrivial_rule: "at least one queue insertion landed on an occupied (side, price, timestamp) triple",
     }
@@ -306,7 +306,7 @@ pub fn c06(ctx: &Ctx) -> i32 {
             Tier::Quick => vec![exh(4, &ADV1, true, false), exh_new(3, &ADV1, true, false, 0)],
             Tier::Thorough => vec![exh(5, &ADV1, true, false), exh_new(4, &ADV1, true, false, 0)],
         },
-        rnd: vec![(p, ctx.tier.pick(15_000, 250_000))],
+        rnd: vec![(p, ctx.tier.pick(60_000, 1_000_000))],
         nontrivial: |c| c.modifies_effective > 0 && c.tie_insertions == 0,
         nontrivial_rule: "at least one modify request hit an Active order (distinct counts histories; census.modifies_effective counts the (state, request) pairs)",
     };
@@ -336,7 +336,7 @@ pub fn c12_book_spec(tier: Tier) -> BookSpec {
         mons: M_GRID,
         policy: TiePolicy::Any,
         exh: vec![],
-        rnd: vec![(p, tier.pick(20_000, 300_000))],
+        rnd: vec![(p, tier.pick(40_000, 600_000))],
         nontrivial: |c| c.rejected_creations > 0 || c.offgrid_modifies > 0,
         nontrivial_rule: "the history contains at least one off-grid creation or modify request",
     }
@@ -357,7 +357,7 @@ pub fn c13_book_spec(tier: Tier) -> BookSpec {
             Tier::Quick => vec![exh(4, &ADV1, false, true), exh(3, &ADV1, true, true)],
             Tier::Thorough => vec![exh(5, &ADV1, false, true), exh(4, &ADV1, true, true)],
         },
-        rnd: vec![(p, tier.pick(15_000, 250_000))],
+        rnd: vec![(p, tier.pick(45_000, 700_000))],
         nontrivial: |c| c.ops_while_disabled > 0 && c.trades_after_reenable > 0,
         nontrivial_rule: "operations were issued while trading was disabled and at least one trade happened after re-enabling",
     }
